@@ -71,7 +71,11 @@ def check_C01(tier):
     ok, msg = prebuild()
     if not ok:
         return build_failure(pid, tier, msg)
-    proof = common.prove(["Y.Props.C01_sound"], ["Yv.Props.C01"])
+    proof = common.prove(["Y.Props.C01_sound",
+                          # the verified table generator: its table ALWAYS passes certT; the whole modelled pipeline is sound
+                          "Y.Props.genTable_certT", "Y.Props.C01_generator", "Y.Props.pipeline_certT", "Y.Props.C01_pipeline",
+                          "Y.Props.genRowL_eq_core", "Y.Props.C01_pairWinner_sel"],
+                         ["Yv.Props.C01", "Yv.Props.C01gen"])
     results = sweep.run(tier, rng)
     # the theorem needs only the certificates on the implementation's artefacts (and the driver
     # model = generated code, which the C08 check ties by execution); no generator mirror is involved
@@ -146,8 +150,10 @@ def check_C02(tier):
     ok, msg = prebuild()
     if not ok:
         return build_failure(pid, tier, msg)
-    proof = common.prove(["Y.Props.C02_complete", "Y.Props.C02_complete_sound", "Y.Props.C01_sound", "Y.Props.C03_oracle_exact"],
-                         ["Yv.Props.C02", "Yv.Props.C01", "Yv.Props.C03"])
+    proof = common.prove(["Y.Props.C02_complete", "Y.Props.C02_complete_sound", "Y.Props.C01_sound", "Y.Props.C03_oracle_exact",
+                          # generator level: for every LALR(1) grammar the modelled pipeline accepts exactly the language
+                          "Y.Props.genTable_certC", "Y.Props.C02_generator", "Y.Props.C02_generator_laL", "Y.Props.C02_pipeline"],
+                         ["Yv.Props.C02", "Yv.Props.C01", "Yv.Props.C03", "Yv.Props.C01gen"])
     results = sweep.run(tier, rng)
     ties = cert_ties(results, ["gramWF", "certA", "certT"])
     violations, samples = [], []
@@ -201,8 +207,11 @@ def check_C03(tier):
         return build_failure(pid, tier, msg)
     proof = common.prove(["Y.Props.C03_oracle_exact", "Y.Props.C03_oracle_lr1", "Y.Props.C03_laLines", "Y.LA_iff",
                           "Y.Props.C03_dp_exact", "Y.Props.C03_dp_exact_with", "Y.Props.C03_dp_eq_laL", "Y.Props.C03_dp_declarative", "Y.Props.C03_dp_lr1", "Y.Props.C03_dp_lines",
-                          "Y.Props.C03_dp_read", "Y.Props.C03_dp_follow", "Y.Props.C03_dp_la"],
-                         ["Yv.Props.C03", "Yv.Abs.Lalr", "Yv.Props.C03b"])
+                          "Y.Props.C03_dp_read", "Y.Props.C03_dp_follow", "Y.Props.C03_dp_la",
+                          # the Digraph/Traverse routine itself (model Y.DG): total, computes the least solution
+                          "Y.Props.digraph_total", "Y.Props.digraph_least", "Y.Props.digraph_eq_solve", "Y.Props.C03_dp_digraph",
+                          "Y.Props.C03_dp_digraph_exact", "Y.Props.C03_dg_lines_eq"],
+                         ["Yv.Props.C03", "Yv.Abs.Lalr", "Yv.Props.C03b", "Yv.Props.C03c"])
     results = sweep.run(tier, rng, inputs=False, n_random=600 if tier == "quick" else 15000,
                         n_tiny=600 if tier == "quick" else None)
     ties = cert_ties(results, ["gramWF", "certA", "prodOK"])
@@ -231,6 +240,8 @@ def check_C03(tier):
                          "impl": il[k][:300] if k < len(il) else "<missing>", "model": ml[k][:300] if k < len(ml) else "<missing>"})
         if any(l.startswith("X dp=laL FAIL") for l in r.raw_model):
             ties.append({"what": "the DeRemer-Pennello model disagrees with the verified oracle laL", "case": r.id, "src": r.case["src"]})
+        if any(l.startswith("X stagesDG=stagesWith FAIL") for l in r.raw_model) or r.V.get("dgSizeOK", ["ok"])[0] != "ok":
+            ties.append({"what": "the Digraph model disagrees with the least solutions (or its size hypothesis fails)", "case": r.id, "src": r.case["src"]})
     violations, samples = [], []
     sets = 0
     warn_lines_seen = warn_lines_read = 0
@@ -543,8 +554,7 @@ def check_C04(tier):
     if not ok:
         return build_failure(pid, tier, msg)
     proof = common.prove(["C04.sr_higher_rule", "C04.sr_higher_token", "C04.sr_equal_left", "C04.sr_equal_right",
-                          "C04.sr_equal_nonassoc", "C04.no_prec_is_error", "C04.default_sr_shifts", "C04.rr_first"],
-                         ["Yv.Props.C04"])
+                          "C04.sr_equal_nonassoc", "C04.no_prec_is_error", "C04.default_sr_shifts", "C04.rr_first", "Y.Props.C01_pairWinner_is_go", "Y.Props.C01_goRes_sel", "Y.Props.genTableL_goRes"], ["Yv.Props.C04", "Yv.Props.C04gen"])
     ties, violations, samples = [], [], []
     # (1) the decision functions themselves, all pairs over a small domain, against the property's rule
     p = common.sh([common.BIN + "/yharness", "resolve"])
@@ -584,6 +594,10 @@ def check_C04(tier):
     results = sweep.run(tier, rng, inputs=False, n_random=500 if tier == "quick" else 8000)
     ties += cert_ties(results, ["gramWF", "certA", "laOracle"])
     ties += mirror_ties(results, ("ROW",), "dense table")
+    for r in results:
+        if r.refused is None and any(l.startswith("X genTableL=implRows FAIL") or l.startswith("X genTableL=coreGenRow FAIL") for l in r.raw_model):
+            ties.append({"what": "the verified table generator genTableL (with the translated resolution functions) differs from the implementation's table",
+                         "case": r.id, "src": r.case["src"]})
     cells = 0
     expr_results = []
     for r in results:
@@ -856,8 +870,9 @@ def check_C06(tier):
     return common.conclude(pid, tier, "proof", proof, ties, violations, cov, [])
 
 
-C06_THEOREMS = ["Y.Props.C06_safe", "Y.Props.C06_prefix", "Y.Props.C06_first_bad_token", "Y.Props.C06_error_prefix"]
-C06_MODULES = ["Yv.Props.C06", "Yv.Props.C06b"]
+C06_THEOREMS = ["Y.Props.C06_safe", "Y.Props.C06_prefix", "Y.Props.C06_first_bad_token", "Y.Props.C06_error_prefix",
+                "Y.Props.C06_generator", "Y.Props.C06_pipeline"]
+C06_MODULES = ["Yv.Props.C06", "Yv.Props.C06b", "Yv.Props.C01gen"]
 
 
 # ------------------------------------------------------------------------------------------- X-based checks
@@ -1150,6 +1165,14 @@ def check_C07(tier):
     t3, subst_n, subst_panics = subst_ties(srcs)
     ties += t3
     violations, samples = [], []
+    # a grammar whose action runs a nested parse on the same global parser: `$1` of the outer rule must still
+    # be the outer value afterwards
+    nt, nwrong, _ = xrun.run_c15_nested(rng, with_expected=True)
+    ties += nt
+    for v in nwrong[:3]:
+        violations.append({"key": common.finding_key({"nested": v["input"]}),
+                           "what": "value of Parser(%r) is %r, the actions evaluate to %r (grammar with a nested parse in an action)" % (v["input"], v["got"], v["expected"]),
+                           "replay": dict(v, property=pid)})
     vnames = [v[3] for v in xrun.VARIANTS if not (v[0] == "typescript" and res["node"] is None)]
     accepted = 0
     for c in res["usable"]:
@@ -1889,6 +1912,17 @@ def c11_spec(rng):
     tags = {t: "val" for t in sp["tokens"] if rng.random() < 0.4}
     sp["all_named"] = tokens
     sp["tagsel"] = tags
+    # half of the specs put several tokens on one %token line (same tag status), numbered ones before un-numbered ones too
+    if rng.random() < 0.5:
+        groups, cur = [], []
+        for t in sp["tokens"]:
+            if cur and ((t in tags) != (cur[0] in tags) or len(cur) >= 3 or rng.random() < 0.3):
+                groups.append(cur)
+                cur = []
+            cur.append(t)
+        if cur:
+            groups.append(cur)
+        sp["token_groups"] = groups
     sp["eof_token"] = rng.random() < 0.3
     # numbers given in a LATER declaration than the first mention (`%token <val> NUM` … `%token NUM 5`),
     # chosen just above the largest code so far, where the automatic range would go next
@@ -2623,7 +2657,9 @@ def check_C19(tier):
         inp = os.path.join(work, "in_%s.y" % tag)
         outp = os.path.join(work, "out_%s.txt" % tag)
         open(inp, "w", encoding="utf-8").write(src)
-        before = ("PRE-EXISTING OUTPUT %s\n" % tag).encode() * 20
+        # half of the pre-existing files are much longer than any generated output (a writer that does not
+        # truncate leaves their tail behind)
+        before = ("PRE-EXISTING OUTPUT %s\n" % tag).encode() * (20 if ki % 2 else 4000)
         open(outp, "wb").write(before)
         try:
             p = subprocess.run([cli, "generate"] + flags + [target, inp, outp], stdout=subprocess.DEVNULL, stderr=subprocess.DEVNULL, timeout=60, cwd=work)
